@@ -76,6 +76,7 @@ type Finding struct {
 	Status    string `json:"status"` // "known" | "fixed"
 	What      string `json:"what"`
 	PanicSite string `json:"panic_site,omitempty"`
+	PanicSites []string `json:"panic_sites,omitempty"`
 	Commit    string `json:"commit,omitempty"`
 }
 
@@ -307,6 +308,9 @@ func cmdRun(args []string) int {
 			if f.PanicSite != "" {
 				sites = append(sites, interp.KnownSite{ID: f.ID, Contains: f.PanicSite})
 			}
+			for _, ps := range f.PanicSites {
+				sites = append(sites, interp.KnownSite{ID: f.ID, Contains: ps})
+			}
 		}
 	}
 	nw := *workers
@@ -378,9 +382,14 @@ func cmdRun(args []string) int {
 				opts.StepBudget = to.StepBudget
 			}
 			opts.MaxPaths = to.MaxPaths
-			if to.WallS > 0 {
-				opts.Deadline = time.Now().Add(time.Duration(to.WallS) * time.Second)
+			wall := 900
+			if *tier == "thorough" {
+				wall = 3300
 			}
+			if to.WallS > 0 {
+				wall = to.WallS
+			}
+			opts.Deadline = time.Now().Add(time.Duration(wall) * time.Second)
 			opts.ActiveFindings = map[string]bool{}
 			for id := range active {
 				opts.ActiveFindings[id] = true
@@ -449,6 +458,9 @@ func cmdRun(args []string) int {
 				key := v.Kind + "|" + v.ID
 				if v.Kind != "assert" {
 					key = v.Kind + "|" + v.Msg
+					if v.Panic != nil {
+						key = v.Kind + "|" + v.Panic.Site
+					}
 				}
 				if seenV[key] {
 					continue
@@ -474,7 +486,19 @@ func cmdRun(args []string) int {
 				}
 			}
 			if len(rep.Inconclusive) > 0 {
-				fmt.Fprintf(os.Stderr, "harness %s: INCONCLUSIVE at these bounds: %s\n", h.Func, trunc(strings.Join(rep.Inconclusive, " | "), 1500))
+				cnt := map[string]int{}
+				var order []string
+				for _, m := range rep.Inconclusive {
+					k := trunc(strings.SplitN(m, "\n", 2)[0], 700)
+					if cnt[k] == 0 {
+						order = append(order, k)
+					}
+					cnt[k]++
+				}
+				fmt.Fprintf(os.Stderr, "harness %s: INCONCLUSIVE at these bounds:\n", h.Func)
+				for _, k := range order {
+					fmt.Fprintf(os.Stderr, "   [%dx] %s\n", cnt[k], k)
+				}
 			}
 			if *verbose {
 				fmt.Fprintf(os.Stderr, "harness %s: paths=%d outcomes=%v queries=%d (sat %d unsat %d unk %d) solver=%.1fs wall=%.1fs asserts=%d\n",
